@@ -481,6 +481,16 @@ func (w *spWorld) stepNoWait(st spStep) {
 		w.peers[st.P].resume()
 	case "Tick":
 		time.Sleep(time.Duration(st.D) * time.Second)
+	case "DelPeer":
+		_ = w.ss.s.DeletePeer(context.Background(), &api.DeletePeerRequest{Address: w.peers[st.P].addr.String()})
+		w.gateMu.Lock()
+		delete(w.srvPeers, st.P)
+		w.gateMu.Unlock()
+	case "AddPeer":
+		old := w.peers[st.P]
+		w.addPeer(st.P)
+		// keep the neighbour object (its connection counter) so that views stay per session
+		old.closeConn()
 	case "SetImp":
 		w.setPolicy(api.PolicyDirection_POLICY_DIRECTION_IMPORT, st.Pol)
 	case "SetExp":
